@@ -7,11 +7,20 @@ THEOREMS = {
             "popularity_normalised", "fit_ends_with_normalize", "partialFit_ends_with_normalize",
             "stat_greedy", "stat_ucb", "stat_softmax", "stat_thompson", "stat_popularity", "stat_random",
             "fitRec_append", "parallelFitIn_closed"],
+    "C05": ["partition_exact_cover", "effectiveJobs_bounds", "splitBySizes_flatten", "chunked_map", "predict_any_partition",
+            "fit_tasks_commute", "parallelFitIn_closed", "Py.Dict.foldl_modify"],
+    "C06": ["incremental_eq_batch", "spec_chunked", "rowsOf_append", "fitRec_append", "first_partial_is_fit", "neighbors_history"],
+    "C07": ["fit_discards", "resetFor_congr", "sameConfig_fresh", "fit_after_history_eq_fresh"],
+    "C09": ["argmax_first", "foldMax_spec", "argmaxFirst_mem", "predict_eq_argmax", "leWith_val"],
     "C17": ["rejected_noop", "train_rejected_noop", "query_rejected_noop", "rejected_then_continue"],
 }
 
 IMPORTS = {
     "C01": ["MabModel.Props.C01"],
+    "C05": ["MabModel.Props.C05"],
+    "C06": ["MabModel.Props.C06"],
+    "C07": ["MabModel.Props.C07"],
+    "C09": ["MabModel.Props.C09"],
     "C17": ["MabModel.Props.C17"],
 }
 
